@@ -93,6 +93,18 @@ func (x *Exec) flattenLeaves(v Value, ts *[]*smt.Term, depth int) string {
 		if u.Nil {
 			return "n"
 		}
+		if u.Atom == nil && u.Len > 0 {
+			if es := x.sliceElems(u); len(es) > 0 {
+				if _, isByte := es[0].(IntV); !isByte {
+					// a slice of other values: its elements, with the length in the shape
+					s := fmt.Sprintf("L%d", len(es))
+					for _, e := range es {
+						s += x.flattenLeaves(e, ts, depth+1)
+					}
+					return s + "E"
+				}
+			}
+		}
 		*ts = append(*ts, x.bytesTerm(u))
 		return "y"
 	case PtrV:
